@@ -10,7 +10,10 @@ RULE = ("the valid reply script of both flows and EVERY single edit of it (delet
         "packet size announcements), key variants (512..2048 bit, other PEM block type, truncated, trailing bytes, garbage, empty, bad DER), nonce lengths 0..100, random multi-edit scripts, unsupported modes; "
         "each under one of three packetisations, random configurations with 0..3 remote servers. One case = one Channel.Login call against the scripted peer. Non-trivial = every case (each is a whole login); distinct by input.")
 ASSUMPTIONS = ASSUMPTIONS_COMMON
-LEVEL_TEXT = "filled in with the theorems"
+LEVEL_TEXT = ("C08_plain_success_iff / C08_encrypted_success_iff: for EVERY delivered package stream, error count, key oracle and configuration the step-by-step model of login.go succeeds exactly on the "
+              "declarative acceptance language; C08_login_success_iff lifts this to the reply PACKETS (any packetisation, any bytes) through the rx model; C08_post: after success the connection has the server's "
+              "capabilities and the announced packet size. Every non-accepting reply sequence therefore ends in an error (LRejected, or LCtx when the wait ends with the caller's context). "
+              "Partial: 'never a wait that outlives the context' and 'never a crash' are observed on the real code (watchdog, recovered panics), the model has no blocking state other than LCtx.")
 LEVEL_NOTE = "Trusted: Coq kernel; hand-written login/rx/tx/package models (validated by correspondence on every run); Go harness and standard-library crypto as key oracle; extraction + driver."
 def nontrivial(c):
     return True
